@@ -38,20 +38,21 @@ type Prog struct {
 
 // Func is a source function: a declaration or a function literal.
 type Func struct {
-	Prog       *Prog
-	Pkg        *packages.Package
-	ID         string // lnwallet.LightningChannel.SignNextCommitment, or <parent>$1 for literals
-	Decl       *ast.FuncDecl
-	Lit        *ast.FuncLit
-	Obj        *types.Func // nil for literals
-	Parent     *Func       // enclosing function for literals
-	Body       *ast.BlockStmt
-	Type       *ast.FuncType
-	File       *ast.File
-	Lits       []*Func // directly or indirectly nested literals, in source order
-	graph      *flow.Graph
-	defCache   map[types.Object]*defInfo
-	rangeCache map[types.Object]ast.Expr
+	Prog          *Prog
+	Pkg           *packages.Package
+	ID            string // lnwallet.LightningChannel.SignNextCommitment, or <parent>$1 for literals
+	Decl          *ast.FuncDecl
+	Lit           *ast.FuncLit
+	Obj           *types.Func // nil for literals
+	Parent        *Func       // enclosing function for literals
+	Body          *ast.BlockStmt
+	Type          *ast.FuncType
+	File          *ast.File
+	Lits          []*Func // directly or indirectly nested literals, in source order
+	graph         *flow.Graph
+	defCache      map[types.Object]*defInfo
+	rangeCache    map[types.Object]ast.Expr
+	rangeKeyCache map[types.Object]ast.Expr
 }
 
 // AnchorError is raised (by panic) when an anchor cannot be resolved; the
